@@ -1,7 +1,7 @@
 SPECIFICATION Spec
 CONSTANTS Fns = {"beat", "onset", "segment", "chord", "melody", "multipitch", "transcription", "transcription_velocity", "tempo", "key", "pattern", "hierarchy", "alignment", "util", "sonify"}
           Inputs = {1}
-          Kws = {1}
+          Kws = {1, 2}
           MaxLen = 2
 INVARIANT Repeatable
 INVARIANT HeapStable
